@@ -39,18 +39,41 @@ def drain_facts(cx, pr, rep, cname, handle_pred, what, close_field='_wfp'):
             continue
         rep.ob('%s shutdown: the drain never blocks (get_nowait)' % cname, gets[0][1][1][2] == 'get_nowait', W, '%s._post_process:blocking-get' % cname)
         msg = gets[0][1]
-        isstop = any(ct[0] == 'cmp' and ((ct[1] in ('==', 'is') and tr) or (ct[1] in ('!=', 'is not') and not tr)) and ct[2] == msg and pr.isstop(ct[3]) for ct, tr, _ in l.conds)
-        notstop = any(ct[0] == 'cmp' and ((ct[1] in ('==', 'is') and not tr) or (ct[1] in ('!=', 'is not') and tr)) and ct[2] == msg and pr.isstop(ct[3]) for ct, tr, _ in l.conds)
         handled = handle_pred(l, msg)
-        if isstop:
+        # which kind of message takes this path: the stop marker and a data message are taken through the path's conditions
+        from ..semantic import evaluator, Undecided
+        from ..termeval import NotEvaluable
+        kinds_here = []
+        try:
+            for kind, val in (('stop', 'STOP-MARKER'), ('data', (3, 'a-region'))):
+                a_ = {msg: val}
+                if pr.stop is not None:
+                    a_[pr.stop] = 'STOP-MARKER'
+                ok_ = True
+                for ct, tr, _ in l.conds:
+                    if not any(x == msg for x in walk(ct)):
+                        continue
+                    ev_ = evaluator(a_)
+                    got = ev_.ev(ct)
+                    if ev_.leaves:
+                        raise Undecided('condition %s' % show(ct)[:60])
+                    if bool(got) != tr:
+                        ok_ = False
+                        break
+                if ok_:
+                    kinds_here.append(kind)
+        except (Undecided, NotEvaluable) as exc:
+            rep.unknown('%s._post_process: a condition on the drained message could not be evaluated (%s)' % (cname, exc))
+            continue
+        if 'stop' in kinds_here:
             seen['stop'] += 1
             rep.ob('%s shutdown: a stop marker found while draining is skipped (not %s)' % (cname, what), handled == 0 and l.outcome == 'loop-back', W, '%s._post_process:stop-skipped' % cname)
-        elif notstop:
+        if 'data' in kinds_here:
             seen['data'] += 1
             rep.ob('%s shutdown: every message still queued is %s exactly once' % (cname, what), handled == 1 and l.outcome == 'loop-back', W, '%s._post_process:drain-data' % cname, 'handled %d times, outcome %s' % (handled, l.outcome),
                    sample=dict(worker=cname, drained_message='DATA', handled=handled))
-        else:
-            rep.ob('%s shutdown: drained messages are tested against the stop marker' % cname, False, W, '%s._post_process:untested-message' % cname)
+        if 'stop' in kinds_here and 'data' in kinds_here:
+            rep.ob('%s shutdown: drained messages are tested against the stop marker' % cname, False, W, '%s._post_process:untested-message' % cname, 'the stop marker and a data message take the same path')
     for k, n in seen.items():
         rep.ob('%s shutdown hook has a %s case' % (cname, k), n >= 1, W, '%s._post_process:missing-%s' % (cname, k))
 
@@ -75,7 +98,8 @@ def check(repo, rep):
     # ---- S1 read(): forward every block to the writer before returning it
     rd = cx.model.find_method(MOD, sc, 'read')
     nrd = 0
-    for l in cx.leaves_of(*rd):
+    from ..facts import split_ites
+    for l in split_ites(cx.leaves_of(*rd)):
         if l.outcome != 'return':
             continue
         nrd += 1
@@ -159,8 +183,24 @@ def check(repo, rep):
             for l in cx.leaves_of(MOD, jc, n):
                 for c in l.conds:
                     tested |= {x[2] for x in walk(c[0]) if x[0] == 'attr' and x[1] == ('self',)}
-    firstf = [f for f, ds in jdefs.items() if any(d['method'] == '__init__' and d['value'] in (('c', True), ('c', False)) for d in ds) and f in tested]
+    # the two-valued state: a field set to a constant at construction, tested by the worker, and only ever assigned constants
+    # (a boolean flag of either polarity, two enum members, two module constants)
+    firstf = [f for f, ds in jdefs.items() if any(d['method'] == '__init__' and d['value'][0] == 'c' and d['value'][1] is not None and not isinstance(d['value'][1], (str, bytes, float)) for d in ds)
+              and f in tested and all(d['value'][0] == 'c' for d in ds)]
     flag_init = {f: next(d['value'][1] for d in jdefs[f] if d['method'] == '__init__' and d['value'][0] == 'c') for f in firstf}
+    flag_other = {}
+    for f in list(firstf):
+        vals = []
+        for d in jdefs[f]:
+            if not any(d['value'][1] == x and type(d['value'][1]) == type(x) for x in vals):
+                vals.append(d['value'][1])
+        others = [x for x in vals if not (x == flag_init[f] and type(x) == type(flag_init[f]))]
+        if len(others) == 1:
+            flag_other[f] = others[0]
+        elif len(others) == 0 and isinstance(flag_init[f], bool):
+            flag_other[f] = not flag_init[f]         # a flag that is never changed: the other state is the other boolean
+        else:
+            firstf.remove(f)
     # the separator field = what the event writer writes before the data on the not-first path
     silf = []
     for n in jc.body:
@@ -222,9 +262,9 @@ def check(repo, rep):
             from ..semantic import evaluator, holds, value, Undecided
             from ..facts import split_ites
             wl_ = split_ites(cx.leaves_of(MOD, jc, wev))
-            b0 = flag_init[ff]
+            b0, b1 = flag_init[ff], flag_other[ff]
             try:
-                for state, label in ((b0, 'first'), (not b0, 'later')):
+                for state, label in ((b0, 'first'), (b1, 'later')):
                     a_ = {('attr', ('self',), ff): state}
                     hit = [l for l in wl_ if holds(l, evaluator(a_))]
                     if len(hit) != 1:
@@ -234,10 +274,10 @@ def check(repo, rep):
                     st = [e for e in l.effects if e[0] == 'store' and e[1] == ('attr', ('self',), ff)]
                     after = value(st[-1][2], evaluator(a_)) if st else state
                     if label == 'first':
-                        rep.ob('joiner: the first event is written without leading silence and clears the flag', wr == [dp] and after == (not b0) and l.outcome != 'raise', W(wev), 'AudioEventsJoinerWorker.%s[first]' % wev.name,
+                        rep.ob('joiner: the first event is written without leading silence and clears the flag', wr == [dp] and after == b1 and type(after) == type(b1) and l.outcome != 'raise', W(wev), 'AudioEventsJoinerWorker.%s[first]' % wev.name,
                                'writes %s, %s goes from %s to %s' % ([show(w)[:40] for w in wr], ff, state, after), sample=dict(event='first', writes=[show(w)[:40] for w in wr]))
                     else:
-                        rep.ob('joiner: every later event is preceded by exactly one separator (silence, then the event)', wr == [('attr', ('self',), sf), dp] and after == (not b0) and l.outcome != 'raise', W(wev),
+                        rep.ob('joiner: every later event is preceded by exactly one separator (silence, then the event)', wr == [('attr', ('self',), sf), dp] and after == b1 and type(after) == type(b1) and l.outcome != 'raise', W(wev),
                                'AudioEventsJoinerWorker.%s[later]' % wev.name, 'writes %s, %s goes from %s to %s' % ([show(w)[:40] for w in wr], ff, state, after), sample=dict(event='later', writes=[show(w)[:40] for w in wr]))
             except Undecided as exc:
                 rep.unknown('AudioEventsJoinerWorker.%s: %s' % (wev.name, exc))
@@ -295,5 +335,5 @@ def check(repo, rep):
                        'cache on the same path; shutdown = non-blocking drain until Empty (data cached once, stop marker skipped) then flush then close -- so every block is written exactly once in FIFO order whatever '
                        'the cache size or interleaving; joiner: first event alone and flag cleared, later events = separator then event, every message routed through that writer (live and drained), separator = '
                        'make_silence(d, rate, width, channels).data = round(d*rate) zero samples, same construction as split_and_join_with_silence; region saver: one save per message, {id,start,end,duration} from the '
-                       'detection. Wave header roles by the role rule. NOT decided: file contents under concrete schedules (argued from these facts + FIFO queue).')
+                       'detection. Wave header roles by the role rule. The saver decides end of stream as the tokenizer does (block is None, never truthiness); the joiner\'s first/later typestate is decided by evaluating its event writer in both states of its flag, whatever its polarity. NOT decided: file contents under concrete schedules (argued from these facts + FIFO queue).')
     rep.assumptions = ['queue.Queue is FIFO and thread-safe', 'wave.Wave_write.writeframes appends the given bytes', 'C12 (every message delivered once, in order)']
